@@ -1,5 +1,6 @@
 //! mlv — correspondence harness between the Coq model (/verif/coq) and the crate in /repo.
 mod c03;
+mod c01api;
 mod c05n;
 mod c06;
 mod c02;
@@ -172,6 +173,10 @@ fn main() {
         "c20" | "c06" => {
             let o = c20::generate(seed, scale, cmd);
             o.write(&out, cmd, "From MLV Require Import model.Bytes model.Cache model.Check20.", "c20case", "run20", shards);
+        }
+        "c01api" => {
+            let o = c01api::generate(seed, scale);
+            o.write(&out, "c01api", "From MLV Require Import model.Bytes model.CheckApi.", "apicase", "run_api", shards);
         }
         "c06calls" => {
             let o = c06::generate(seed, scale);
